@@ -26,6 +26,10 @@ CHECKS = {
     "C03": kernel("mm/pmm", pmm(["c01c03_test.go"]), "TestVerifPMM", "model_checking",
                   {"quick": dict(shards=16, timeout=600), "thorough": dict(shards=16, timeout=3000)},
                   assumptions=["same exploration as C01 with the accounting / error-contract oracles"]),
+    "C17": kernel("device/tty", {"harness/tty/vt_test.go": K + "device/tty/zz_verif_vt_test.go"}, "TestVerifVT", "model_checking",
+                  {"quick": dict(shards=16, timeout=600), "thorough": dict(shards=16, timeout=3000, budget=1500)},
+                  assumptions=["the console behind the terminal is a reference cell-grid console (the shipped drivers are bound in C18/C19)",
+                               "printable alphabet {a} for fixed-point search, {a,b} for depth-bounded search; colours are the console defaults (the terminal never changes its current colours)"]),
     "C07": kernel("mm/vmm", {"harness/c07/c07_test.go": K + "mm/vmm/zz_verif_c07_test.go"}, "TestVerifC07", "model_checking",
                   {"quick": dict(shards=4, timeout=300), "thorough": dict(shards=4, timeout=1200)},
                   assumptions=["sizes are drawn from a 16-value alphabet relative to the current cursor (0, 1, page-1, page, page+1, 3 pages, cursor-page, cursor-1, cursor, cursor+1, cursor+page, 2^63, 2^64-4096, 2^64-4095, 2^64-101, 2^64-1)",
